@@ -1,25 +1,41 @@
 import ComposeVerif.Lemmas.EnvLayers
 /-!
-# C16 — a statement of the property that the unchanged tree falsifies
+# C16 — a statement of the property that the tree falsified **before** the `fix:` commit
 
 "A missing env file is an error unless marked not required."  At full strength, *missing* means that
-no file exists at the path.  `loadEnvFile` decides it with `os.IsNotExist(err)` on the error of `os.Stat`,
-which does not hold for ENOTDIR: an env file `required: false` whose path lies *under a regular file*
-(`a.env/x` where `a.env` is a file) is not skipped, the load fails with "open …: not a directory".
-The provable statement is `missing_optional_skipped_partial` in `Props/C16.lean`
-(hypothesis `fs f.path = none`, i.e. the plain ENOENT case).
+no file exists at the path.  Before the repair `loadEnvFile` decided it with `os.IsNotExist(err)` on the
+error of `os.Stat`, which does not hold for ENOTDIR: an env file `required: false` whose path lies *under a
+regular file* (`a.env/x` where `a.env` is a file) was not skipped, the load failed with
+"open …: not a directory".  The repair (`fileIsMissing`: `fs.ErrNotExist` or `ENOTDIR`) is in the model now and
+the statement is proved at full strength (`missing_optional_skipped` in `Props/C16.lean`).
 
-The witness below is replayed on the real code on every run (`corpus/C16/optional-under-file.json`,
-oracle key `missing-optional-not-skipped:enotdir`).
+This file keeps the **pre-fix** loader (`loadEnvFilePre`) and the witness on which it violates the statement;
+the same input is replayed on the real code on every run (`corpus/C16/optional-under-file.json`) and must pass now.
 -/
 namespace CV.EnvLayers.Neg
 open CV.EnvLayers CV.EnvLayers.Spec
 
-/-- the full-strength statement: a missing, not-required env file contributes nothing -/
-def MissingOptionalSkipped : Prop :=
+/-- `loadEnvFile` before the fix: only ENOENT (`fs p = none`) counted as missing -/
+def loadEnvFilePre (fs : FS) (f : EnvFile) (look : Look) : Except Err (List (Key × Str)) :=
+  match fs f.path with
+  | none => if f.required then .error .notFound else .ok []
+  | some .notdir => .error .read          -- went on to `os.Open`: "not a directory"
+  | some _ => loadMappingFile fs f.path f.format look
+
+def loadEnvFilesPre (penv : List (Key × Str)) (fs : FS) : List EnvFile → List (Key × Str) → Except Err (List (Key × Str))
+  | [], acc => .ok acc
+  | f :: r, acc =>
+    match loadEnvFilePre fs f (envChain penv acc) with
+    | .error e => .error e
+    | .ok vars => loadEnvFilesPre penv fs r (overrideBy acc vars)
+
+/-- the full-strength statement, about a given loop over the env files:
+    a missing, not-required env file contributes nothing -/
+def MissingOptionalSkipped
+    (load : List (Key × Str) → FS → List EnvFile → List (Key × Str) → Except Err (List (Key × Str))) : Prop :=
   ∀ (penv : List (Key × Str)) (fs : FS) (pre post : List EnvFile) (f : EnvFile) (acc : List (Key × Str)),
     Missing fs f.path → f.required = false →
-      loadEnvFiles penv fs (pre ++ f :: post) acc = loadEnvFiles penv fs (pre ++ post) acc
+      load penv fs (pre ++ f :: post) acc = load penv fs (pre ++ post) acc
 
 /-- `a.env` is a regular file, the service lists `a.env/x` with `required: false` -/
 def witnessFS : FS := fun p =>
@@ -29,17 +45,20 @@ def witnessFS : FS := fun p =>
 
 def witnessFile : EnvFile := ⟨['a', '.', 'e', 'n', 'v', '/', 'x'], false, []⟩
 
-theorem witness_missing : Missing witnessFS witnessFile.path ∧ witnessFile.required = false := by
-  unfold Missing
+theorem witness_missing : Missing witnessFS witnessFile.path ∧ witnessFile.required = false :=
+  ⟨Or.inr rfl, rfl⟩
+
+theorem witness_failed_pre : loadEnvFilesPre [] witnessFS [witnessFile] [] = .error .read := by
   decide
 
-theorem witness_fails : loadEnvFiles [] witnessFS [witnessFile] [] = .error .read := by
+/-- after the fix the same input is skipped -/
+theorem witness_skipped_now : loadEnvFiles [] witnessFS [witnessFile] [] = .ok [] := by
   decide
 
-theorem missing_optional_skipped_false : ¬ MissingOptionalSkipped := by
+theorem missing_optional_skipped_false_pre : ¬ MissingOptionalSkipped loadEnvFilesPre := by
   intro h
   have e := h [] witnessFS [] [] witnessFile [] witness_missing.1 witness_missing.2
-  rw [List.nil_append, witness_fails] at e
+  rw [List.nil_append, witness_failed_pre] at e
   cases e
 
 end CV.EnvLayers.Neg
